@@ -70,9 +70,9 @@ func run(c Case) (res ev.Result) {
 	}
 	var lastT int64
 	for _, d := range want {
-		if f, _ := exactTicks(d.TS64-lastT, c.Res, c.BPM).Float64(); f > 0x0FFFFFFF || d.TS64-lastT >= 1<<31 {
-			// outside the stated domain: a delta beyond the format's maximum, or a gap that the
-			// difference of two 32-bit millisecond stamps cannot represent
+		if f, _ := exactTicks(d.TS64-lastT, c.Res, c.BPM).Float64(); f > 0x0FFFFFFF || d.TS64 >= 1<<31 {
+			// outside the stated domain: a delta beyond the format's maximum, or an arrival time
+			// that a 32-bit millisecond stamp cannot represent (the stamp would have wrapped around)
 			res.Skip = true
 			return
 		}
@@ -340,7 +340,7 @@ func genCase(port string) func(t *rapid.T) Case {
 	}
 }
 
-const rule = "rapid: live streams of the C04 domain (1..30 messages, one stream in 25 has 300..1500; channel, system common, sysex, real-time incl. active sensing, running status, interleaved real-time) plus unpaired/undefined bytes (F4 F5 F7 F9 FD) and sysex starts that are never terminated (ended by the next status byte) between and inside messages, chunked with inter-arrival times 0..60000 ms and up to 14 pauses of up to 2^28 ms (the sum may pass 2^31 ms, where the 32-bit stamps wrap around; gaps between two recorded messages stay below 2^31 ms); tempo 20..400 BPM (fractional), resolution 24..15360; oracle: track = tempo event (within the 24-bit field's resolution) + exactly the channel messages the reference receiver sees, unchanged and in order, each delta within one tick of the exact rational conversion of the arrival time difference; every other stored event must be a legal SMF event; after Close+WriteTo the strict SMF parser accepts the bytes and ReadFrom returns the same events; non-trivial = >= 3 channel messages with a real-time / system-common message between two of them; distinct by case hash"
+const rule = "rapid: live streams of the C04 domain (1..30 messages, one stream in 60 has 300..1500; channel, system common, sysex, real-time incl. active sensing, running status, interleaved real-time) plus unpaired/undefined bytes (F4 F5 F7 F9 FD) and sysex starts that are never terminated (ended by the next status byte) between and inside messages, chunked with inter-arrival times 0..60000 ms and up to 4 pauses of up to 2^28 ms (the whole recording stays below 2^31 ms, the range of the 32-bit time stamps); tempo 20..400 BPM (fractional), resolution 24..15360; oracle: track = tempo event (within the 24-bit field's resolution) + exactly the channel messages the reference receiver sees, unchanged and in order, each delta within one tick of the exact rational conversion of the arrival time difference; every other stored event must be a legal SMF event; after Close+WriteTo the strict SMF parser accepts the bytes and ReadFrom returns the same events; non-trivial = >= 3 channel messages with a real-time / system-common message between two of them; distinct by case hash"
 
 var fake = ev.NewCheck("C13", "track-record-fake-port", rule+"; port = deterministic drivers.In of the harness (exact clock)", genCase("fake"), run)
 var tdrv = ev.NewCheck("C13", "track-record-testdrv", rule+"; port = testdrv with Driver.Sleep as clock (first recorded delta exempt: that driver's first time stamp contains the wall clock)", genCase("testdrv"), run)
